@@ -69,7 +69,9 @@ def resume_cfg(cfg):
     tier = cfg.pop("_tier", "quick")
     R = rh.run(cfg)
     if R.exception is not None:
-        raise explorer.HarnessError(f"reference run raised {R.exception}")
+        r.case(explorer.digest(["ref", cfg]))
+        r.violation(f"C18/run-raises/{R.exception[0]}/{R.exception[1]}", R.exception, {"kind": "resume", "cfg": cfg})
+        return r.dump()
     for sig, detail in check_history(to_rec(R)) + extra_series(R, cfg["sampler"]):
         r.violation(sig, detail, {"kind": "resume", "cfg": cfg, "stage": "reference"})
     r.case(explorer.digest(["ref", cfg]), nontrivial=len(R.history["beta"]) >= 2)
